@@ -341,7 +341,13 @@ def factory_case(cid, which, rng):
                     case["dataok"] = bool(okk)
             elif which == "mgr.from_gmat":
                 cls = get("MeanGenomicRelationshipSelectionProblem", "MeanGenomicRelationshipSubsetSelectionProblem")
-                pr = cls.from_gmat(gm, DenseMolecularCoancestryMatrixFactory(), nobj=1, **sp)
+                fc = DenseMolecularCoancestryMatrixFactory()
+                if rng.random() < 0.6:
+                    # ONE factory object serves the whole programme: it was used on this population before, and the population
+                    # was then reordered in place (the problem must describe the population as it is now)
+                    cls.from_gmat(gm, fc, nobj=1, **sp)
+                    pm_ = list(range(n)); rng.shuffle(pm_); gm.reorder_taxa(np.array(pm_))
+                pr = cls.from_gmat(gm, fc, nobj=1, **sp)
                 K = 0.5 * np.asarray(DenseMolecularCoancestryMatrixFactory().from_gmat(gm).mat)
                 case["dataok"] = bool(np.allclose(pr.C.T @ pr.C, K, atol=1e-5))
     except Exception as e:
